@@ -438,8 +438,8 @@ class Op:
     def text(self) -> str:
         if self.kind == "cond":
             return f"cond[{_t(self.a)}]({' '.join(o.text() for o in self.inner or [])})"
-        if self.kind == "clamp":
-            return f"clamp({_t(self.a)}, {_t(self.b)})"
+        if self.kind in ("clamp", "saturate"):
+            return f"{self.kind}({_t(self.a)}, {_t(self.b)})"
         if self.kind in ("call", "trunc"):
             return f"{self.kind}:{self.name}"
         if self.kind in ("condassign", "condreturn"):
@@ -833,6 +833,30 @@ def _merge_clamp(ops: List[Op]) -> List[Op]:
         if (a.a is None) != (b.a is None):
             return ops[:-2] + [Op("clamp", lo, hi, node=b.node)]
     return ops
+
+
+def _prim_bound(e: Optional[ast.AST], which: str) -> bool:
+    """`<spec path>.max_val` / `.min_val`: the range of the primitive the integer is handed to."""
+    return isinstance(e, ast.Attribute) and e.attr == which and ap(e.value) is not None
+
+
+def _mark_saturation(ops: List[Op]) -> List[Op]:
+    """A clamp that follows the rounding and whose bounds are the primitive's own max_val / min_val is a
+    saturation: the identity on every code that rounding maps into the primitive's range (so it cannot disturb
+    encode(decode(raw)) == raw); any other clamp after scaling stays a clamp and is reported."""
+    out = []
+    rounded = False
+    for o in ops:
+        if o.kind == "round":
+            rounded = True
+        if o.kind == "clamp" and rounded and (o.a is None or _prim_bound(o.a, "min_val")) \
+                and (o.b is None or _prim_bound(o.b, "max_val")) and (o.a is not None or o.b is not None):
+            out.append(Op("saturate", o.a, o.b, node=o.node))
+            continue
+        if o.kind in ("mul", "div", "rdiv"):
+            rounded = rounded and False
+        out.append(o)
+    return out
 
 
 def _inverse(op: Op) -> Op:
@@ -1286,7 +1310,7 @@ def _apply(num: Num, ops: List[Op], x: float, env: Dict[str, Any]) -> float:
             if num.ev(o.a, env):
                 x = _apply(num, o.inner or [], x, env)
             continue
-        if o.kind == "clamp":
+        if o.kind in ("clamp", "saturate"):
             continue
         a = num.ev(o.a, env) if o.a is not None else None
         if a is not None and (isinstance(a, bool) or not isinstance(a, (int, float))):
@@ -1463,6 +1487,29 @@ def self_check_range(ctx, inst: Inst, where, num: Num, dec, enc, env, raw_min, r
         ctx.ob("C10.R3", f"{inst.key}: clamp encloses the decoded wire range", ok, where,
                f"encoder clamps to [{c_lo!r}, {c_hi!r}] but raw {raw_min}..{raw_max} decode to [{d_lo!r}, {d_hi!r}]: "
                f"every raw value decoding outside the clamp re-encodes to the clamp's code")
+    # the integer handed to the primitive stays inside the primitive's range: the clamp bounds pushed through the
+    # encoder's affine part and the rounding, unless a saturation at the primitive's own bound follows the rounding
+    allowed = ("clamp", "saturate", "nudge", "round", "trunc", "cond") + AFFINE
+    clamps_ = [o for o in enc if o.kind == "clamp"]
+    if clamps_ and all(o.kind in allowed for o in enc):
+        try:
+            c_lo = num.ev(clamps_[0].a, env) if clamps_[0].a is not None else None
+            c_hi = num.ev(clamps_[0].b, env) if clamps_[0].b is not None else None
+            aff = [o for o in enc if o.kind in AFFINE or o.kind == "cond"]
+            r_hi = round(_apply(num, aff, float(c_hi), env)) if c_hi is not None else None
+            r_lo = round(_apply(num, aff, float(c_lo), env)) if c_lo is not None else None
+        except (Unknown, TypeError, OverflowError, ValueError):
+            r_hi = r_lo = None
+        sat_hi = any(o.kind == "saturate" and o.b is not None for o in enc)
+        sat_lo = any(o.kind == "saturate" and o.a is not None for o in enc)
+        bad = []
+        if r_hi is not None and r_hi > raw_max and not sat_hi:
+            bad.append(f"the top of the clamp range ({c_hi!r}) encodes to {r_hi}, above the primitive's maximum {raw_max}")
+        if r_lo is not None and r_lo < raw_min and not sat_lo:
+            bad.append(f"the bottom of the clamp range ({c_lo!r}) encodes to {r_lo}, below the primitive's minimum {raw_min}")
+        ctx.ob("C10.R3", f"{inst.key}: encoder output stays inside the primitive's range", not bad, where,
+               "; ".join(bad) + (": struct.pack raises instead of saturating - values at / above the end of the declared "
+                                 "range cannot be encoded" if bad else ""))
     if inst.outer is not None:
         _vector_wrapper_check(ctx, inst, where, d_lo, d_hi, tol)
 
@@ -2062,6 +2109,78 @@ def r5(ctx):
         ctx.note("C10.R5: no hand-quantising writer with an element loop found; nothing to check")
         ctx.ob("C10.R5", "no hand-quantising element loop in the codec modules", True, "hippolyzer/lib/base")
 
+
+# ------------------------------------------------------------------------------------------ R6
+
+def r6(ctx, pairs):
+    """Range widths can be zero (flat mesh axis, degenerate quantiser range, zero-length animation): an encoder that
+    divides by `upper - lower` must have decided the zero-width case first, otherwise a value that decoded fine
+    cannot be encoded again (ZeroDivisionError)."""
+    repo = ctx.repo
+    ctx.rule("C10.R6", "every division by a range width (`a - b` of two bounds, directly or through a local) in the "
+                       "encoders and domain helpers is guarded against a zero width")
+    DT = "hippolyzer/lib/base/datatypes.py"
+    MESHM = "hippolyzer/lib/base/mesh.py"
+    fns: List[FuncInfo] = []
+    for ci, d, e, kind in pairs:
+        for g in [e] + [m for m in (repo.lookup_method(ci, n) for n in ("quantize",)) if m is not None]:
+            if g not in fns:
+                fns.append(g)
+    wd = repo.fn_opt("TupleCoord.within_domain", DT)
+    if wd is not None:
+        fns.append(wd)
+    else:
+        ctx.note("C10.R6: TupleCoord.within_domain not found; domain normalisation not checked")
+    for f in repo.all_funcs:
+        if f.module.rel == MESHM and f.parent_fn is None and f not in fns:
+            fns.append(f)
+    n = 0
+    for f in fns:
+        # single-assigned locals
+        sts = [s_ for s_ in stores(f.node, into_defs=True) if "." not in s_.path and "[" not in s_.path]
+        counts: Dict[str, int] = {}
+        for s_ in sts:
+            counts[s_.path] = counts.get(s_.path, 0) + 1
+        defs = {s_.path: s_.value for s_ in sts if counts[s_.path] == 1 and s_.kind == "assign" and s_.value is not None
+                and isinstance(s_.target, ast.Name)}
+        for node in walk(f.node, into_defs=True):
+            div = None
+            if isinstance(node, ast.BinOp) and isinstance(node.op, (ast.Div, ast.FloorDiv, ast.Mod)):
+                div = node.right
+            elif isinstance(node, ast.AugAssign) and isinstance(node.op, (ast.Div, ast.FloorDiv, ast.Mod)):
+                div = node.value
+            if div is None:
+                continue
+            name = div.id if isinstance(div, ast.Name) else None
+            width = defs.get(name) if name else div
+            if not (isinstance(width, ast.BinOp) and isinstance(width.op, ast.Sub) and ap(width.left) and ap(width.right)):
+                continue
+            a, b = ap(width.left), ap(width.right)
+            if a.endswith(("max_val", "min_val")) and b.endswith(("max_val", "min_val")):
+                continue        # width of a primitive's own range: never zero
+            n += 1
+            guarded = False
+            from ..core import facts as _facts
+            for e, pol in _facts(node, f.node):
+                if not isinstance(e, ast.Compare) or len(e.ops) != 1:
+                    continue
+                paths = {ap(x) for x in ast.walk(e) if isinstance(x, (ast.Name, ast.Attribute))}
+                zero_cmp = any(isinstance(x, ast.Constant) and x.value == 0 and not isinstance(x.value, bool)
+                               for x in ast.walk(e))
+                about = ({a, b} <= paths) or (name is not None and name in paths and zero_cmp) or \
+                    (zero_cmp and _t(width) in {_t(x) for x in ast.walk(e)})
+                if not about:
+                    continue
+                op = e.ops[0]
+                nonzero = (isinstance(op, ast.Eq) and not pol) or (isinstance(op, ast.NotEq) and pol) or \
+                    (isinstance(op, (ast.Lt, ast.Gt)) and pol) or (isinstance(op, (ast.LtE, ast.GtE)) and not pol)
+                if nonzero:
+                    guarded = True
+            ctx.ob("C10.R6", f"{f.qual}: division by the range width `{_t(width)}` is guarded against zero", guarded,
+                   ctx.w(f, node), f"`{norm(node)[:80]}` divides by `{_t(width)}` on a path where the two bounds may be "
+                   f"equal: a zero-width range / flat domain axis decodes but raises ZeroDivisionError when encoded")
+    ctx.floor("C10.R6", "divisions by a range width", n, 2)
+
 # ------------------------------------------------------------------------------------------ driver
 
 def run(ctx):
@@ -2075,6 +2194,7 @@ def run(ctx):
         dsrc = _with_raw_source(d) if kind == "fp" else d
         dec = seq.of_method(dsrc, tracked=_tracked_for(d, kind, "dec"))
         enc = OpSeq(repo, ci).of_method(e, tracked=None)
+        enc = _mark_saturation(enc)
         seqs[ci] = (dec, enc)
         ctx.stats[f"C10.ops.{ci.name}"] = {"decode": _fmt(dec), "encode": _fmt(enc)}
     r1(ctx, pairs, seqs)
@@ -2083,5 +2203,6 @@ def run(ctx):
     r2_r3(ctx, pairs, seqs, prims)
     r4(ctx)
     r5(ctx)
+    r6(ctx, pairs)
     ctx.assume("bit-exact encode(decode(raw)) == raw over all raws, IEEE rounding and monotonicity in float "
                "arithmetic are not decided; instance checks use real-arithmetic reasoning with a 1e-9 tolerance")
